@@ -13,6 +13,8 @@
 import ast
 
 from vh.translate import TranslateError, _class, _func, _parse, coq_string, coq_strings
+from vh.translate import NORMALISE      # a handler that only warns is `pass` after _parse unless VERIF_TRANSLATE_RAW=1
+_WARN = 'pass' if NORMALISE else 'logger.warning(%W)'
 
 
 def _norm(node):
@@ -440,7 +442,7 @@ def item_flag_setters(repo, out):
         for which, got, pre, tmpl in (
                 ('getter', g, pre_g, ['selection=%s', 'return[nameforname,bitinzip(' + known + ',selection)ifbit]']),
                 ('setter', p, pre_p, ['names=_selection_to_list(names,all=' + known + ')', 'selection=np.zeros(8,dtype=np.uint8)',
-                                      'fornameinnames:try:selection[' + known + '.index(name)]=1exceptValueError:pass',     # (the warning of the handler is normalised away)
+                                      'fornameinnames:try:selection[' + known + '.index(name)]=1exceptValueError:' + _WARN,
                                       'flagmask=%s', 'self._flags_select=flagmask'])):
             got = [s for s in got]
             # the warning call inside the try/except is kept by _strip_noise (it is the handler body): normalise it
@@ -476,7 +478,7 @@ def item_flag_setters(repo, out):
                 raise TranslateError('%s: %s._weights_keep getter has an unexpected body' % (rel, cname))
             got = [__import__('re').sub(r'logger\.warning\(.*\)$', 'logger.warning(%W)', _norm(s)) for s in _strip_noise(wp.body)]
             if got != [kw, 'names=_selection_to_list(names,all=known_weights)', 'selection=[]',
-                       'fornameinnames:try:selection.append(known_weights.index(name))exceptValueError:pass',
+                       'fornameinnames:try:selection.append(known_weights.index(name))exceptValueError:' + _WARN,
                        'self._weights_select=selection']:
                 raise TranslateError('%s: %s._weights_keep setter has an unexpected body' % (rel, cname))
             wnames.append((fmt, [e.value for e in wn.elts]))
